@@ -331,7 +331,11 @@ func afterOversizeProbes(c *Ctx) {
 
 func streamSeg(c *Ctx) {
 	if replayOp != "" {
-		segCheck(c, replayOp)
+		if strings.HasPrefix(replayOp, "env.drain") {
+			envOp(c, replayOp) // carries its own oracle
+		} else {
+			segCheck(c, replayOp)
+		}
 		return
 	}
 	largeLastMessageProbe(c, "seg-large-message")
